@@ -1,10 +1,3 @@
-/-! GENERATED by tools/pkgstate from the repository's hand-written packages — do not edit -/
-namespace Ysgo.Generated
-/-- package-level variables of the hand-written packages -/
-def packageVars : List String := ["markup.endOfCharacterMarker", "tree.commandNumberRegexp", "ysgo.argConverterByGoalKind", "ysgo.typeErrChan", "ysgo.typeError"]
-/-- how each of them is initialised: regexp (regexp.MustCompile: safe for concurrent use), reflect.Type (immutable),
-map-literal (read-only as long as there is no write), other -/
-def packageVarKinds : List (String × String) := [("markup.endOfCharacterMarker", "regexp"), ("tree.commandNumberRegexp", "regexp"), ("ysgo.argConverterByGoalKind", "map-literal"), ("ysgo.typeErrChan", "reflect.Type"), ("ysgo.typeError", "reflect.Type")]
-/-- writes to (or address-taking of) a package-level variable outside of its initialiser -/
-def packageWrites : List String := []
-end Ysgo.Generated
+-- extractor failed
+#eval (panic! "extractor pkgstate failed" : Nat)
+example : False := by trivial
